@@ -94,6 +94,13 @@ def wraps(cls, Ls, tier, part):
             out.append(dict(kind='irregular', remove=[coords[1]], add=[list(cells[-1]) + [Lu], None]))
     if cls in ('Square', 'Honeycomb', 'Kagome'):
         out += [dict(kind='helical', n=n) for n in range(1, Ls[0] * Ls[1] + 1) if (Ls[0] * Ls[1]) % n == 0]
+        # the same helix reached through enlarge_mps_unit_cell(2) from the one with half as many cells
+        out += [dict(kind='helical', n=n, enlarge=2) for n in range(2, Ls[0] * Ls[1] + 1, 2) if (Ls[0] * Ls[1]) % n == 0]
+    # (appended last, so that the wrapper indices of the units above stay what they were)
+    if cls in ('Kagome', 'Ladder'):
+        out.append(dict(kind='species', n=2))  # number of species different from the size of the simple unit cell
+    if cls in ('Chain', 'Honeycomb'):
+        out.append(dict(kind='species', n=3))
     return out
 
 
@@ -160,7 +167,7 @@ def build(spec):
     if post is not None and kind != 'species':
         lat.order = lat.order[permutation(post, lat.N_sites)]
     if kind == 'species':
-        lat = tl.MultiSpeciesLattice(lat, ['a', 'b'][:wrap['n']], ['A', 'B'][:wrap['n']])
+        lat = tl.MultiSpeciesLattice(lat, ['a', 'b', 'c'][:wrap['n']], ['A', 'B', 'C'][:wrap['n']])
         if species_order is not None:
             lat.order = lat.ordering(species_order)
         if post is not None:
@@ -171,7 +178,10 @@ def build(spec):
                                   add_unit_cell=[] if add is None else ['extra'],
                                   add_positions=None if add is None else np.full((1, lat.basis.shape[1]), 0.25))
     elif kind == 'helical':
-        lat = tl.HelicalLattice(lat, wrap['n'])
+        f = wrap.get('enlarge', 1)
+        lat = tl.HelicalLattice(lat, wrap['n'] // f)
+        if f > 1:
+            lat.enlarge_mps_unit_cell(f)
     return lat
 
 
